@@ -28,6 +28,8 @@ ObsInit == [cos |-> 0,             \* index of the tap whose futures the cancel-
             att |-> EmptyMap,      \* f -> number of cancel() calls made by the shutdown thread
             shcalls |-> 0, shrets |-> 0, wait |-> -1, nkw |-> -1,
             dsh |-> EmptyMap,      \* tap -> number of DelegateShutdown calls
+            dshopen |-> FALSE,     \* the cancel-on-shutdown layer's delegate.shutdown() call is in progress
+            shthreads |-> {},      \* threads that called shutdown()
             dshok |-> TRUE,        \* every DelegateShutdown so far carried the same arguments
             live |-> {},           \* names of the executors' own worker threads that started and did not exit
             died |-> {}]           \* ... that ended with an exception
@@ -41,12 +43,15 @@ ObsNext(st, e) ==
     [] e.ev = "SubmitCall" -> [st EXCEPT !.calling = Put(@, e.f, st.shrets >= 1)]
     [] e.ev = "SubmitRet" -> [st EXCEPT !.returned = @ \cup {e.f}, !.att = IF Has(@, e.f) THEN @ ELSE Put(@, e.f, 0)]
     [] e.ev = "DelegateState" /\ e.c = st.cos /\ e.s \in Terminal -> [st EXCEPT !.done = @ \cup {e.f}]
-    [] e.ev = "CancelArrived" /\ TapOf(e) = st.cos /\ st.cos > 0 /\ e.r = "shutdown" /\ Get(st.dsh, st.cos, 0) = 0 ->
+    [] e.ev = "CancelArrived" /\ TapOf(e) = st.cos /\ st.cos > 0 /\ e.r = "shutdown" /\ ~st.dshopen ->
           [st EXCEPT !.att = Put(@, e.f, Get(@, e.f, 0) + 1)]
-    [] e.ev = "ShutdownCall" -> [st EXCEPT !.shcalls = @ + 1, !.wait = IF st.shcalls = 0 THEN e.a ELSE @]
+    [] e.ev = "ShutdownCall" -> [st EXCEPT !.shcalls = @ + 1, !.wait = IF st.shcalls = 0 THEN e.a ELSE @,
+                                           !.shthreads = @ \cup {e.thr}]
+    [] e.ev = "DelegateShutdownRet" /\ TapOf(e) = st.cos /\ st.cos > 0 -> [st EXCEPT !.dshopen = FALSE]
     [] e.ev = "ShutdownRet" -> [st EXCEPT !.shrets = @ + 1]
     [] e.ev = "DelegateShutdown" ->
           [st EXCEPT !.dsh = Put(@, TapOf(e), Get(@, TapOf(e), 0) + 1),
+                     !.dshopen = IF TapOf(e) = st.cos /\ st.cos > 0 THEN TRUE ELSE @,
                      !.nkw = IF st.nkw = -1 THEN e.c ELSE @,
                      !.dshok = @ /\ e.a = st.wait /\ (st.nkw = -1 \/ e.c = st.nkw)]
     [] e.ev = "ThreadStart" /\ e.r \in WorkerRoles -> [st EXCEPT !.live = @ \cup {e.s}]
@@ -54,18 +59,20 @@ ObsNext(st, e) ==
           [st EXCEPT !.live = @ \ {e.s}, !.died = IF e.a = 1 THEN @ \cup {e.s} ELSE @]
     [] OTHER -> st
 
-FirstShutdownRet(st, e) == e.ev = "ShutdownRet" /\ st.shrets = 0
+\* C10 speaks of "the one thread calling shutdown()"; with several concurrent callers the overtaken ones return early
+OneCaller(st) == Cardinality(st.shthreads) <= 1
+FirstShutdownRet(st, e) == e.ev = "ShutdownRet" /\ st.shrets = 0 /\ OneCaller(st)
 
 Clauses(st, e) ==
   << <<"C10_SweepCoversAll",
         (FirstShutdownRet(st, e) /\ st.cos > 0) =>
             \A f \in st.returned : f \notin st.done => Get(st.att, f, 0) = 1>>,
      <<"C10_AtMostOneCancel",
-        \* (the top executor sweeps before it shuts its delegate down; later arrivals come from layers below)
-        (e.ev = "CancelArrived" /\ st.cos > 0 /\ TapOf(e) = st.cos /\ e.r = "shutdown" /\ Get(st.dsh, st.cos, 0) = 0)
+        \* (arrivals while the top executor's delegate.shutdown() call is in progress come from the layers below)
+        (e.ev = "CancelArrived" /\ st.cos > 0 /\ TapOf(e) = st.cos /\ e.r = "shutdown" /\ ~st.dshopen /\ OneCaller(st))
             => Get(st.att, e.f, 0) = 0>>,
      <<"C10_RacingSubmitCovered",
-        (e.ev = "End" /\ st.cos > 0 /\ st.shrets >= 1) =>
+        (e.ev = "End" /\ st.cos > 0 /\ st.shrets >= 1 /\ OneCaller(st)) =>
             \A f \in st.returned : f \notin st.done => Get(st.att, f, 0) = 1>>,
      <<"C10_InnerShutDown",
         (FirstShutdownRet(st, e) /\ st.cos > 0) => Get(st.dsh, st.cos, 0) = 1>>,
@@ -75,10 +82,16 @@ Clauses(st, e) ==
         (e.ev = "SubmitRaise" /\ st.shcalls >= 1) => e.a = 1>>,
      <<"C11_Idempotent",
         e.ev = "ShutdownRaise" => FALSE>>,
-     <<"C11_PropagatedOnceSameArgs",
-        e.ev = "ShutdownRet" => (st.dshok /\ \A i \in 1..st.ntaps : Get(st.dsh, i, 0) = 1)>>,
+     <<"C11_PropagatedOnceSameArgs",    \* (a caller overtaken by a concurrent shutdown() may return before the other one
+        \*  has propagated: "exactly once" is then demanded at the end and "never twice" always)
+        (e.ev = "ShutdownRet" /\ Cardinality(st.shthreads) = 1) =>
+            (st.dshok /\ \A i \in 1..st.ntaps : Get(st.dsh, i, 0) = 1)>>,
+     <<"C11_NeverPropagatedTwice",
+        e.ev = "DelegateShutdown" => Get(st.dsh, TapOf(e), 0) = 0>>,
+     <<"C11_PropagatedByTheEnd",
+        (e.ev = "End" /\ st.shrets >= 1) => (st.dshok /\ \A i \in 1..st.ntaps : Get(st.dsh, i, 0) = 1)>>,
      <<"C11_WorkerExitedWhenWaited",
-        (e.ev = "ShutdownRet" /\ st.wait = 1) => st.live = {}>>,
+        (e.ev = "ShutdownRet" /\ st.wait = 1 /\ OneCaller(st)) => st.live = {}>>,
      <<"C11_ShutdownReturns",
         e.ev = "End" => st.shrets = st.shcalls>>,
      <<"C04_NoThreadBlockedForever",
